@@ -1,5 +1,7 @@
 import XzVerif.Proofs.XzSound
 import XzVerif.Proofs.XzRoundTrip
+import XzVerif.Proofs.LazyXz
+import XzVerif.Proofs.Fuel
 /-
   C12 — Concatenated xz streams decode to the concatenation; SingleStream takes just one.
 
@@ -54,5 +56,41 @@ theorem C12_single_stream (strict : Bool) (cfgCap : Nat) (s : Stream) (hok : Str
 theorem C12_input_preserved (strict : Bool) (cap : Nat) (single : Bool) (fuel : Nat) (first : Bool) (r : RdState) :
     (readStreams strict cap single fuel first r).1.inp = r.inp :=
   readStreams_inp strict cap single fuel first r
+
+/-! ### at the level the code runs: the lazy xz reader (Model/LazyXz.lean, tied per call to the real xz.Reader) -/
+
+open LazyDec LazyXz in
+/-- Every chain of well-formed streams (zero padding in multiples of four after each) is read by the lazy xz reader model,
+    under EVERY schedule of buffer lengths asking for more than the content, to exactly the concatenation of the contents
+    followed by `io.EOF`: composition of the concatenation law with the refinement theorem. -/
+theorem C12_lazy_reader_concatenation (cfgCap : Nat) (ss : List Stream) (hne : ss ≠ [])
+    (hok : ∀ s ∈ ss, StreamOk false s ∧ CapOk false cfgCap s) (x : X)
+    (h : LazyXz.newReader cfgCap false (emit ss.toArray) = .ok x) (lens : List Nat)
+    (hsum : ((ss.map content).foldl (· ++ ·) ByteArray.empty).size < lens.sum) :
+    LazyXz.lastStat (LazyXz.readSeq x lens) = .eof ∧
+    delivered (LazyXz.readSeq x lens) = (ss.map content).foldl (· ++ ·) ByteArray.empty := by
+  obtain ⟨hst, hout⟩ := read_emit false cfgCap ss hne hok
+  have hb : LazyXz.batch cfgCap false (emit ss.toArray) = Xz.read false cfgCap false (emit ss.toArray) := rfl
+  have hclean : (LazyXz.batch cfgCap false (emit ss.toArray)).status = .eof := by rw [hb]; exact hst
+  have hbo : (LazyXz.batch cfgCap false (emit ss.toArray)).out = (ss.map content).foldl (· ++ ·) ByteArray.empty := by
+    rw [hb]; exact hout
+  have heof := LazyXz.reaches_eof cfgCap false (emit ss.toArray) x h lens hclean (by rw [hbo]; exact hsum)
+  have hf : (LazyXz.batch cfgCap false (emit ss.toArray)).status ≠ .err "fuel exhausted" := by
+    rw [hclean]; intro hh; cases hh
+  exact ⟨heof, by rw [(LazyXz.eof_complete cfgCap false (emit ss.toArray) x h lens hf heof).2, hbo]⟩
+
+open LazyDec LazyXz in
+/-- SingleStream at the level the code runs: if anything follows the first stream, no schedule ever ends with `io.EOF`;
+    and whatever is delivered is a prefix of the first stream's content. -/
+theorem C12_lazy_single_stream_rejects_trailing (cfgCap : Nat) (s : Stream) (hok : StreamOk false s)
+    (hcap : CapOk false cfgCap s) (hpad : s.padAfter = 0) (t : ByteArray) (ht : t ≠ ByteArray.empty) (x : X)
+    (h : LazyXz.newReader cfgCap true (emitStream s ++ t) = .ok x) (lens : List Nat) :
+    LazyXz.lastStat (LazyXz.readSeq x lens) ≠ .eof := by
+  intro he
+  have hf : (LazyXz.batch cfgCap true (emitStream s ++ t)).status ≠ .err "fuel exhausted" := Fuel.xz_read_fuel _ _ _ _
+  have hc := (LazyXz.eof_complete cfgCap true (emitStream s ++ t) x h lens hf he).1
+  have hb : LazyXz.batch cfgCap true (emitStream s ++ t) = Xz.read false cfgCap true (emitStream s ++ t) := rfl
+  rw [hb] at hc
+  exact ht ((read_single false cfgCap s hok hcap hpad t).1.mp hc)
 
 end Props.C12
